@@ -100,6 +100,15 @@ BODIES = [
 ]
 
 
+
+# A use of a name that is no local is the module global of that name, LOOKED UP WHEN THE USE EXECUTES: every way of writing a global (plain
+# assignment at top level / in a function / in a closure / compound, redefinition with `var`, a failed assignment, a callback run by
+# another module, and for a module's global: assignment through the module object, through an alias of it, compound, by the module's own
+# functions, a new attribute, a function replaced by a closure) is seen at once by every way of reading it that has ALREADY executed before
+# (function, interpolation, method, closure, suspended fiber, top level) - nothing may remember an earlier value.
+MODULE_SCENARIOS = [("global-writes-are-seen-by-every-warmed-read", 'import "gmod";\nvar g = 0;\nfn get() { return g; }\nfn get_str() { return "g=${g}"; }\n#[constructor(new)] class R { fn get(self) { return g; } }\nvar r = R.new();\nvar lam = || g;\nvar fib = Fiber.new(|| { while true { Fiber.yield(g); } });\nfn all() { return [get(), get_str(), r.get(), lam(), fib.call(), g]; }\nprint(all()); print(all());\ng = 1; print(all());\nfn setter(v) { g = v; } setter(2); print(all());\ng += 1; print(all());\nvar g = 4; print(all());\n{ var h = || { g = 5; }; h(); } print(all());\ngmod.set_main_g(|v| { g = v; }, 6); print(all());\nfn g_as_fn() { return 7; } print(get() == 0);\ntry { g = nil + 1; } catch e { print(all()); }\n// the module\'s global through every write route, read by the module\'s own (warmed) functions\nprint(gmod.all()); print(gmod.all());\ngmod.level = 1; print(gmod.all());\ngmod.set_level(2); print(gmod.all());\ngmod.level += 1; print(gmod.all());\nvar alias = gmod; alias.level = 4; print(gmod.all());\ngmod.bump(); print(gmod.all());\ngmod.fresh = "new attribute"; print(gmod.read_fresh());\ngmod.fresh = "changed"; print(gmod.read_fresh());\ngmod.helper = |x| x + 100; print(gmod.use_helper(1));\ngmod.helper = |x| x + 200; print(gmod.use_helper(1));\nprint(gmod.level);\n', {"gmod": 'var level = 0;\nfn current() { return level; }\nfn describe() { return "level=${level}"; }\nvar lam = || level;\n#[constructor(new)] class R { fn get(self) { return level; } }\nvar r = R.new();\nfn all() { return [current(), describe(), lam(), r.get(), level]; }\nfn set_level(v) { level = v; }\nfn bump() { level += 1; }\nfn set_main_g(f, v) { f(v); }\nfn read_fresh() { return fresh; }\nfn helper(x) { return x; }\nfn use_helper(x) { return helper(x); }\n'}, ['[0, g=0, 0, 0, 0, 0]', '[0, g=0, 0, 0, 0, 0]', '[1, g=1, 1, 1, 1, 1]', '[2, g=2, 2, 2, 2, 2]', '[3, g=3, 3, 3, 3, 3]', '[4, g=4, 4, 4, 4, 4]', '[5, g=5, 5, 5, 5, 5]', '[6, g=6, 6, 6, 6, 6]', 'false', '[6, g=6, 6, 6, 6, 6]', '[0, level=0, 0, 0, 0]', '[0, level=0, 0, 0, 0]', '[1, level=1, 1, 1, 1]', '[2, level=2, 2, 2, 2]', '[3, level=3, 3, 3, 3]', '[4, level=4, 4, 4, 4]', '[5, level=5, 5, 5, 5]', 'new attribute', 'changed', '101', '201', '5'])]
+
+
 def resolution_grid():
     """Which declaration does a use of `a` refer to?  Declarations of `a` are present or absent at every level (module global, the
     function, an enclosing block, a sibling block that has ended, the statement whose initialiser holds the use, a later statement of the
@@ -230,6 +239,13 @@ def correspondence(ctx, model_ok=True):
                     failures.append({"what": "closure/scoping scenario prints the wrong values when placed in a %s" % k,
                                      "program": variants[k], "expected": expected, "printed": list(o[2]) if len(o) > 2 else o, "status": o[0],
                                      "signature": "scenario %d in %s" % (i % len(BODIES), k), "failing_input": True})
+    for mode in ({"gc": "default"}, {"gc": "always", "quarantine": 1}):
+        mres, _ = progs.run_programs(ctx.runner, [(n, src, mods) for n, src, mods, _ in MODULE_SCENARIOS], mode, tag="g")
+        for (name, src, mods, expected), r in zip(MODULE_SCENARIOS, mres):
+            o = progs.canon_step(r)
+            if o[0] != "ok" or list(o[2]) != expected:
+                failures.append({"what": "scenario '%s' prints %s (%s), expected %s" % (name, list(o[2]) if len(o) > 2 else o, o[0], expected),
+                                 "program": src, "modules": mods, "expected": expected, "signature": "scenario " + name, "failing_input": True})
     # (d) which declaration a use refers to: expectation constructed from the rule
     grid = resolution_grid()
     gres, _ = progs.run_programs(ctx.runner, [(n, src, {}) for n, src, _ in grid], {"gc": "default"}, tag="r")
@@ -246,7 +262,7 @@ def correspondence(ctx, model_ok=True):
                                      % (name, exp, str(o)[:200]), "program": src, "expected_resolution": list(exp), "signature": "resolution " + name.split("/")[1],
                              "failing_input": True})
     # (b) reference interpreter
-    sd = specdiff.diff(ctx, [(n, s, m) for n, s, m, _ in gen] + corpus + [(n, src, {}) for n, src, _ in grid], "C06", broken) if model_ok else {"failures": [], "compared": 0}
+    sd = specdiff.diff(ctx, [(n, s, m) for n, s, m, _ in gen] + corpus + [(n, src, {}) for n, src, _ in grid] + [(n, src, mods) for n, src, mods, _ in MODULE_SCENARIOS], "C06", broken) if model_ok else {"failures": [], "compared": 0}
     failures += sd["failures"]
     tags = {}
     for _, _, _, tg in gen:
